@@ -268,4 +268,77 @@ theorem replica_torn_flush_blockgrow (C : Crypto) (hC : TreeStore.HashWF C) (hT 
   obtain ⟨c1, e, j0, hk⟩ := BlockGrow.blockgrow_ok C hC hT bs m n c d held h hm0 hmn hn us hup sig hsl hver i hi
   exact ⟨c1, e, j0, torn_flush_of_ok C bs m n c c1 d held _ _ e j0 h hk⟩
 
+/-- the header write of the periodic flush torn, for every exchange step (`ReplicaReopen.StepOK`): what
+    `replica_torn_header` says, with the state after the step as `m'`, `held'` -/
+theorem torn_header_of_ok (C : Crypto) (bs : Array Bytes) (m m' : Nat) (c c1 : Core) (d : Disk) (held held' : Nat → Bool) (st : Step Bool)
+    (e : Oplog.Entry) (j0 : List SOp) (h : ReplicaReopen.RP C bs m c d held) (hk : ReplicaReopen.StepOK C bs m m' c c1 d held held' st e j0) :
+    ∀ (off : Nat) (bytes : Bytes) (t : Nat),
+      (Oplog.insertHeader c1.header 0 c1.oplog.bits false).2.head? = some (.write .oplog off bytes) →
+      Oplog.validateLeader (((d.applyAll (j0 ++ (Oplog.appendEntry c.oplog e).2)).oplog.write off (bytes.take t)).toList.drop off |>.take Spec.headerSize) = none →
+      let dt := ((d.applyAll (j0 ++ (Oplog.appendEntry c.oplog e).2)).applyAll (c1.bitfield.flush.2 ++ c1.tree.flush.2)).apply (.write .oplog off (bytes.take t))
+      ∃ c' j, Core.openCore C none dt = .ok (c', j) ∧ C02.Shows bs m' held' c' (dt.applyAll j) ∧ ReplicaReopen.RP C bs m' c' (dt.applyAll j) held' := by
+  intro off bytes t hop hcrc
+  have hmid := ReplicaReopen.ok_mid C bs m m' c c1 d held held' st e j0 h hk
+  obtain ⟨hf1, es1, hp1, hx1⟩ := hmid.per
+  have hdur := ReplicaCrash.torn_headerR C bs _ c1 _ _ hf1 es1 hmid.rep hp1 hx1 h.size off bytes hop t hcrc
+  obtain ⟨c', j, r1, r2, _, _⟩ := ReplicaCrash.durR_open C bs _ _ _ _ _ hdur
+  exact ⟨c', j, r1, C02.shows_of_rp C bs _ c' _ _ r2, r2⟩
+
+/-- the data and entry writes torn, for every exchange step: what `replica_torn_commit_point_partial` says -/
+theorem torn_commit_of_ok (C : Crypto) (bs : Array Bytes) (m m' : Nat) (c c1 : Core) (d : Disk) (held held' : Nat → Bool) (st : Step Bool)
+    (e : Oplog.Entry) (j0 : List SOp) (h : ReplicaReopen.RP C bs m c d held) (hk : ReplicaReopen.StepOK C bs m m' c c1 d held held' st e j0) :
+    (∀ op ∈ j0, ∃ off bytes, op = SOp.write .data off bytes ∧ ∀ t, ∃ c' j, Core.openCore C none (d.apply (SOp.write .data off (bytes.take t))) = .ok (c', j)
+        ∧ C02.Shows bs m held c' ((d.apply (SOp.write .data off (bytes.take t))).applyAll j)
+        ∧ ReplicaReopen.RP C bs m c' ((d.apply (SOp.write .data off (bytes.take t))).applyAll j) held)
+    ∧ (∀ t, t < (Oplog.frame (Oplog.encEntry e) c.oplog.currentBit false).length →
+        let dt := (d.applyAll j0).apply (SOp.write .oplog (Spec.entriesOffset + c.oplog.entriesByteLength) ((Oplog.frame (Oplog.encEntry e) c.oplog.currentBit false).take t))
+        ∃ c' j, Core.openCore C none dt = .ok (c', j) ∧ C02.Shows bs m held c' (dt.applyAll j) ∧ ReplicaReopen.RP C bs m c' (dt.applyAll j) held) := by
+  obtain ⟨t1, t2⟩ := ReplicaCrash.torn_ok C bs m _ c c1 d held _ _ e j0 h hk
+  refine ⟨fun op hop => ?_, fun t ht => ?_⟩
+  · obtain ⟨off, bytes, hop', hdur⟩ := t1 op hop
+    refine ⟨off, bytes, hop', fun t => ?_⟩
+    obtain ⟨c', j, r1, r2, _, _⟩ := ReplicaCrash.durR_open C bs m held _ _ _ (hdur t)
+    exact ⟨c', j, r1, C02.shows_of_rp C bs m c' _ held r2, r2⟩
+  · obtain ⟨c', j, r1, r2, _, _⟩ := ReplicaCrash.durR_open C bs m held _ _ _ (t2 t ht)
+    exact ⟨c', j, r1, C02.shows_of_rp C bs m c' _ held r2, r2⟩
+
+/-- **first contact, torn**: a torn entry write of the first upgrade recovers to the fresh replica; a torn header write of
+    its flush recovers to the replica at length `n` -/
+theorem replica_first_torn (C : Crypto) (hC : TreeStore.HashWF C) (hT : TreeStore.TreeWF C) (bs : Array Bytes) (c : Core) (d : Disk)
+    (held : Nat → Bool) (h : ReplicaReopen.RP C bs 0 c d held) (n : Nat) (h0 : 0 < n) (hn : n ≤ bs.size) (sig : Bytes) (hsl : sig.length = 64)
+    (hver : C.verify c.publicKey (Growth.signableAt C bs n c.tree.fork) sig = true) :
+    ∃ (c1 : Core) (e : Oplog.Entry) (j0 : List SOp),
+      (c.verifyAndApply C d (Growth.honestFirst C bs c.tree.fork n sig)).journal = (j0 ++ (Oplog.appendEntry c.oplog e).2) ++ c1.maybeFlush.2
+      ∧ (∀ t, t < (Oplog.frame (Oplog.encEntry e) c.oplog.currentBit false).length →
+          let dt := (d.applyAll j0).apply (SOp.write .oplog (Spec.entriesOffset + c.oplog.entriesByteLength) ((Oplog.frame (Oplog.encEntry e) c.oplog.currentBit false).take t))
+          ∃ c' j, Core.openCore C none dt = .ok (c', j) ∧ C02.Shows bs 0 (fun _ => false) c' (dt.applyAll j))
+      ∧ (∀ (off : Nat) (bytes : Bytes) (t : Nat),
+          (Oplog.insertHeader c1.header 0 c1.oplog.bits false).2.head? = some (.write .oplog off bytes) →
+          Oplog.validateLeader (((d.applyAll (j0 ++ (Oplog.appendEntry c.oplog e).2)).oplog.write off (bytes.take t)).toList.drop off |>.take Spec.headerSize) = none →
+          let dt := ((d.applyAll (j0 ++ (Oplog.appendEntry c.oplog e).2)).applyAll (c1.bitfield.flush.2 ++ c1.tree.flush.2)).apply (.write .oplog off (bytes.take t))
+          ∃ c' j, Core.openCore C none dt = .ok (c', j) ∧ C02.Shows bs n (fun _ => false) c' (dt.applyAll j)) := by
+  obtain ⟨rfl, c1, e, j0, hk⟩ := ReplicaCrash.first_ok0 C hC hT bs c d held h n h0 hn sig hsl hver
+  refine ⟨c1, e, j0, hk.shape.2, fun t ht => ?_, fun off bytes t hop hcrc => ?_⟩
+  · obtain ⟨c', j, r1, r2, _⟩ := (torn_commit_of_ok C bs 0 n c c1 d _ _ _ e j0 h hk).2 t ht
+    exact ⟨c', j, r1, r2⟩
+  · obtain ⟨c', j, r1, r2, _⟩ := torn_header_of_ok C bs 0 n c c1 d _ _ _ e j0 h hk off bytes t hop hcrc
+    exact ⟨c', j, r1, r2⟩
+
+/-- the header write of the flush after **a block + upgrade proof**, torn: recovery shows the replica of length `n` with the
+    block -/
+theorem replica_blockgrow_torn_header (C : Crypto) (hC : TreeStore.HashWF C) (hT : TreeStore.TreeWF C) (bs : Array Bytes) (m n : Nat) (c : Core) (d : Disk)
+    (held : Nat → Bool) (h : ReplicaReopen.RP C bs m c d held) (hm0 : 0 < m) (hmn : m < n) (hn : n ≤ bs.size) (us : List (Nat × Nat))
+    (hup : Growth.Up m 0 (RefTree.rootsStack n).reverse us) (sig : Bytes) (hsl : sig.length = 64)
+    (hver : C.verify c.publicKey (Growth.signableAt C bs n c.tree.fork) sig = true) (i : Nat) (hi : i < m) :
+    ∃ (c1 : Core) (e : Oplog.Entry) (j0 : List SOp),
+      (c.verifyAndApply C d (BlockGrow.honestBlockGrowth C bs c d i m n us sig)).journal = (j0 ++ (Oplog.appendEntry c.oplog e).2) ++ c1.maybeFlush.2
+      ∧ ∀ (off : Nat) (bytes : Bytes) (t : Nat),
+          (Oplog.insertHeader c1.header 0 c1.oplog.bits false).2.head? = some (.write .oplog off bytes) →
+          Oplog.validateLeader (((d.applyAll (j0 ++ (Oplog.appendEntry c.oplog e).2)).oplog.write off (bytes.take t)).toList.drop off |>.take Spec.headerSize) = none →
+          let dt := ((d.applyAll (j0 ++ (Oplog.appendEntry c.oplog e).2)).applyAll (c1.bitfield.flush.2 ++ c1.tree.flush.2)).apply (.write .oplog off (bytes.take t))
+          ∃ c' j, Core.openCore C none dt = .ok (c', j) ∧ C02.Shows bs n (fun j => held j || j == i) c' (dt.applyAll j)
+            ∧ ReplicaReopen.RP C bs n c' (dt.applyAll j) (fun j => held j || j == i) := by
+  obtain ⟨c1, e, j0, hk⟩ := BlockGrow.blockgrow_ok C hC hT bs m n c d held h hm0 hmn hn us hup sig hsl hver i hi
+  exact ⟨c1, e, j0, hk.shape.2, torn_header_of_ok C bs m n c c1 d held _ _ e j0 h hk⟩
+
 end HC.C07
